@@ -36,6 +36,7 @@ var c08LClasses = []c08LClass{
 	{"opquoted", "os", []any{"a<=b", "x=1", "p!=q", "k>v", "plain"}, []string{"'a<=b'", "\"x=1\"", "'p!=q'", "'k>v'", "'plain'"}, []string{"=", "!="}},
 	{"kwquoted", "ks", []any{"salt and pepper", "this or that", "AND", "plain"}, []string{"'salt and pepper'", "\"this or that\"", "'AND'", "'plain'"}, []string{"=", "!="}},
 	{"quoteinside", "qs", []any{"it's", "say \"hi\"", "plain"}, []string{"\"it's\"", "'say \"hi\"'", "'plain'"}, []string{"=", "!="}},
+	{"mixed", "mx", []any{5.0, "5", []any{"5", "x"}, []any{5.0}, "red", 6.0, "6", true, "true"}, []string{"5", "'5'", "6", "'6'", "'red'", "true", "7"}, []string{"=", "!="}},
 	{"emptystr", "es", []any{"", "plain"}, []string{"''", "\"\"", "'plain'"}, []string{"=", "!="}},
 }
 
@@ -129,6 +130,38 @@ func c08Lenient(ctx *vkit.Ctx, cs *vkit.Case) {
 				outcome = "differ"
 			}
 			ctx.Count("lenient."+qq.class+"."+prov+"."+outcome, 1)
+			// Asserted whatever equality means for these values: `k != lit` is the negation
+			// of `k = lit` (it also matches ids lacking the field), so the two answers
+			// partition the live ids.
+			if err == nil && (qq.c.Op == "=" || qq.c.Op == "!=") {
+				opp := "="
+				if qq.c.Op == "=" {
+					opp = "!="
+				}
+				otext := qq.c.Key + " " + opp + " " + qq.c.Shown
+				cs.Op("[%s] VFilter(f,%q)", prov, otext)
+				other, oerr := e.VFilter("f", otext, 1000)
+				if oerr != nil {
+					ctx.Count("lenient.complement.error", 1)
+				} else {
+					seen := map[string]int{}
+					for _, id := range got {
+						seen[id]++
+					}
+					for _, id := range other {
+						seen[id] += 2
+					}
+					for id := range model {
+						switch seen[id] {
+						case 0:
+							cs.Fail("[%s] id %s (%s=%s) is returned neither by %q nor by %q", prov, id, qq.c.Key, vkit.JSON(model[id][qq.c.Key]), qq.text, otext)
+						case 3:
+							cs.Fail("[%s] id %s (%s=%s) is returned both by %q and by %q", prov, id, qq.c.Key, vkit.JSON(model[id][qq.c.Key]), qq.text, otext)
+						}
+					}
+					ctx.Count("lenient.complement.checked", 1)
+				}
+			}
 			if outcome != "agree" {
 				vals := map[string]any{}
 				for id, m := range model {
